@@ -40,8 +40,7 @@ def shards(tier, seed):
     nmax = 14 if tier == "quick" else 16
     for N in range(2, nmax + 1):
         out.append({"part": "fft", "N": N, "seed": seed})
-    if tier == "thorough":
-        out.append({"part": "fftbig", "seed": seed})
+    out.append({"part": "fftbig", "seed": seed, "sizes": [17, 31, 32, 33, 64, 255, 256, 1023, 1024, 1025] if tier == "quick" else None})
     for lo in range(2, 41, 6):
         out.append({"part": "band", "samples": list(range(lo, min(lo + 6, 41))), "seed": seed})
     out.sort(key=lambda s: -s.get("N", 0))
@@ -192,7 +191,7 @@ def _fftbig(shard):
 
     out = {"evals": 0, "nontrivial": 0, "failures": [], "samples": [], "extra": {}}
     seen = set()
-    for N in range(17, 65):
+    for N in (shard.get("sizes") or list(range(17, 65)) + [255, 256, 1023, 1024, 1025, 4096, 4097]):
         for kind in ("ones", "ramp", "id1", "comb", "lowpass"):
             k = np.arange(N)
             mag = {"ones": np.ones(N), "ramp": 1.0 + k, "id1": np.abs(records.id1(N)) + 0.1, "comb": (k % 3 == 0) * 2.0,
